@@ -44,6 +44,7 @@ func init() {
 	Reg["C08"] = func(tier string, seed int64) *Spec {
 		s := &Spec{
 			Prop:    "C08",
+			Extra:   scanSearchFacts,
 			Pkgs:    []string{"search"},
 			Confirm: &ConfirmRun{"search", "VpV_C08_sweep", "VpV_C08_case"},
 			Bounds: []string{
